@@ -1,14 +1,18 @@
-"""C15 -- negra_mark_heads under contract: every constituent gets exactly the head child the NeGra heuristic names."""
+"""C15 -- negra_mark_heads under contract: every constituent gets exactly the head child the NeGra heuristic names;
+get_headpos_by_rule under contract: the only child whose category the parent's head rules list is the head."""
 import z3
 from pyvc.core import Contract
 from pyvc.sym import (VInt, VBool, VStr, VRef, VOpt, INT, BOOL, STR, REF, TList, TOpt, conj, disj, neg, ite, implies,
                       length, tobool, toint, tostr, fresh_name, qforall)
 from contracts.common import add_common, WF, wf_theory, desc, preorder_facts
 
-VERIFY = ["trees.transform.negra_mark_heads"]
+VERIFY = ["trees.transform.negra_mark_heads", "trees.transformconst.get_headpos_by_rule"]
 SHARDS = {"trees.transform.negra_mark_heads": 8}
 TRUSTED = ["contracts of trees.preorder / trees.children used at call sites (both verified under C19); wf_theory"]
-ASSUMPTIONS = ["every node carries an 'edge' entry (value may be None); Tree heap model of DESIGN 3.3"]
+ASSUMPTIONS = ["every node carries an 'edge' entry (value may be None); Tree heap model of DESIGN 3.3",
+               "get_headpos_by_rule: the rule table is a dict str -> list of (direction, 'cat cat ...') with symbolic "
+               "content; every rule of the parent's category names one of the two known directions (true of both "
+               "presets); str.lower / str.split() are uninterpreted (pieces of split() are non-empty)"]
 
 HEAD = ["has_head", "val_head"]
 
@@ -54,8 +58,116 @@ def marked(H, p):
                    [C.get(j).t])
 
 
+def category(reg, s):
+    """lower-cased category of a child label as get_headpos_by_rule computes it:
+    parse_label(s.lower()).label.lower()   (parse_label's result named by its proved contract, C20)"""
+    from pyvc.core import named_result, STR_LOWER
+    from pyvc.sym import VRec
+    c = reg.get("trees.trees.parse_label")
+    params = VRec("params", {"has": {"gf_separator": z3.BoolVal(False)}, "val": {"gf_separator": VStr(z3.StringVal(""))}})
+    rec = named_result(c, [VStr(STR_LOWER(s)), params])
+    return STR_LOWER(tostr(rec.fields["label"]))
+
+
+def add_headpos(reg):
+    """transformconst.get_headpos_by_rule(parent_label, children_label, rules, default)"""
+    from pyvc.core import spec_wsplit, STR_LOWER
+    from pyvc.sym import TDict, TTuple
+    LTR, RTL = z3.StringVal("left-to-right"), z3.StringVal("right-to-left")
+
+    def rules_of(S):
+        return S.rules.val(STR_LOWER(tostr(S.parent_label)))          # list of (direction, "cat cat ...")
+
+    def nomatch_word(S, word, lo, hi):
+        """no child with index in [lo, hi) has the category `word`"""
+        i = z3.Int(fresh_name("mi"))
+        ch = S.children_label
+        return qforall([i], z3.Implies(z3.And(lo <= i, i < hi), category(reg, tostr(ch.get(i))) != word),
+                       [tostr(ch.get(i))])
+
+    def nomatch_rule(S, labs, upto):
+        """none of the first `upto` categories listed in `labs` is the category of a child"""
+        w = z3.Int(fresh_name("mw"))
+        W = spec_wsplit(VStr(labs))
+        return qforall([w], z3.Implies(z3.And(0 <= w, w < upto),
+                                       nomatch_word(S, tostr(W.get(w)), 0, S.children_label.n)), [tostr(W.get(w))])
+
+    def listed(S, i, bound):
+        """the category of child i is listed in one of the first `bound` head rules of the parent's category"""
+        r, w = z3.Int(fresh_name("lr")), z3.Int(fresh_name("lw"))
+        R = rules_of(S)
+        labs = lambda q: tostr(R.get(q).items[1])
+        return z3.Exists([r, w], z3.And(0 <= r, r < bound, 0 <= w, w < spec_wsplit(VStr(labs(r))).n,
+                                        category(reg, tostr(S.children_label.get(i))) ==
+                                        tostr(spec_wsplit(VStr(labs(r))).get(w))))
+
+    def requires(S, parent_label, children_label, rules, default):
+        # the head rules of this category name a known direction each
+        r = z3.Int(fresh_name("qr"))
+        R = rules.val(STR_LOWER(tostr(parent_label)))
+        key = rules.has(STR_LOWER(tostr(parent_label)))
+        return VBool(z3.Implies(tobool(key), qforall([r], z3.Implies(z3.And(0 <= r, r < R.n), z3.Or(
+            tostr(R.get(r).items[0]) == LTR, tostr(R.get(r).items[0]) == RTL)), [tostr(R.get(r).items[0])])))
+
+    def outer_inv(S):
+        r = z3.Int(fresh_name("or"))
+        R = rules_of(S)
+        return VBool(qforall([r], z3.Implies(z3.And(0 <= r, r < toint(S.it)), z3.And(
+            z3.Length(tostr(R.get(r).items[1])) > 0,
+            nomatch_rule(S, tostr(R.get(r).items[1]), spec_wsplit(R.get(r).items[1]).n))),
+            [tostr(R.get(r).items[1])]))
+
+    def middle_inv(S):
+        return VBool(nomatch_rule(S, tostr(S.hrule.items[1]), toint(S.it)))
+
+    def ltr_inv(S):
+        return VBool(nomatch_word(S, tostr(S.label), 0, toint(S.it)))
+
+    def rtl_inv(S):
+        n = S.children_label.n
+        return VBool(nomatch_word(S, tostr(S.label), n - toint(S.it), n))
+
+    def post(S, parent_label, children_label, rules, default, result):
+        """e: the index of the first rule with an empty priority list (such a rule ends the search), or the number of
+        rules.  Among the rules before e: the only listed child is the head; if several are listed the head is one of
+        them; if none is listed the head is the last / first child as the empty rule's direction says, or the first
+        child when there is no empty rule."""
+        i0, i, e, r = (z3.Int(fresh_name(x)) for x in ("pi", "pj", "pe", "pr"))
+        key = tobool(rules.has(STR_LOWER(tostr(parent_label))))
+        R = rules.val(STR_LOWER(tostr(parent_label)))
+        labs = lambda q: tostr(R.get(q).items[1])
+        n = children_label.n
+        res = toint(result)
+        is_e = z3.And(0 <= e, e <= R.n, z3.ForAll([r], z3.Implies(z3.And(0 <= r, r < e), z3.Length(labs(r)) > 0)),
+                      z3.Implies(e < R.n, z3.Length(labs(e)) == 0))
+        fallback = z3.If(e == R.n, 0, z3.If(tostr(R.get(e).items[0]) == LTR, n - 1, 0))
+        return VBool(z3.And(
+            z3.Implies(z3.Not(key), res == toint(default)),
+            z3.ForAll([e], z3.Implies(z3.And(key, is_e), z3.And(
+                z3.ForAll([i0], z3.Implies(
+                    z3.And(0 <= i0, i0 < n, listed(S, i0, e),
+                           z3.ForAll([i], z3.Implies(z3.And(0 <= i, i < n, i != i0), z3.Not(listed(S, i, e))))),
+                    res == i0)),
+                z3.Implies(z3.Exists([i], z3.And(0 <= i, i < n, listed(S, i, e))),
+                           z3.And(0 <= res, res < n, listed(S, res, e))),
+                z3.Implies(z3.ForAll([i], z3.Implies(z3.And(0 <= i, i < n), z3.Not(listed(S, i, e)))),
+                           res == fallback))))))
+
+    reg.add(Contract(
+        target="trees.transformconst.get_headpos_by_rule", prop="C15",
+        args=dict(parent_label=STR, children_label=TList(STR), rules=TDict(TList(TTuple(STR, STR))), default=INT),
+        requires=requires,
+        ensures={"the_only_listed_child_is_the_head": post}, result_type=INT,
+        loops={0: dict(inv=outer_inv), 1: dict(inv=middle_inv), 2: dict(inv=ltr_inv), 3: dict(inv=rtl_inv)},
+        solver_hints={"post.": {"cli_s": 30}},
+    ))
+
+
 def build(reg):
+    from contracts import c20
+    c20.build(reg)                        # parse_label (proved under C20) is called by get_headpos_by_rule
     add_common(reg)
+    add_headpos(reg)
 
     def requires(S, tree, params):
         H = S.H
